@@ -9,7 +9,7 @@ here = os.path.dirname(os.path.abspath(__file__))
 tmpl = open(os.path.join(here, "mutant_prompt.tmpl")).read()
 props = [json.loads(l) for l in open(os.path.join(here, "..", "properties.jsonl"))]
 os.makedirs(scratch, exist_ok=True)
-ORD = {"2": "SECOND", "3": "THIRD", "4": "FOURTH", "5": "FIFTH", "6": "SIXTH", "7": "SEVENTH", "8": "EIGHTH", "9": "NINTH"}
+ORD = {"2": "SECOND", "3": "THIRD", "4": "FOURTH", "5": "FIFTH", "6": "SIXTH", "7": "SEVENTH", "8": "EIGHTH", "9": "NINTH", "10": "TENTH", "11": "ELEVENTH", "12": "TWELFTH"}
 for p in props:
     pid = p["id"]
     d = os.path.join(scratch, pid)
